@@ -239,8 +239,22 @@ def fix_tags(node, e, v):
     """LengthSwitch values carry the byte count of their window as tag: recompute it from the real encoding
     (everywhere in the value); a default-branch value whose size is an explicit key is outside the domain"""
     k = node.k
-    if v is None or not any(x.k == "lenswitch" for x in node.walk()):
+    if v is None or not any(x.k == "lenswitch" or (x.k == "typed" and x.a[0][0] == "term") for x in node.walk()):
         return v
+    if k == "typed" and node.a[0][0] == "term":
+        inner = fix_tags(node.ch[0], e, v)
+        if not S.refs(node.ch[0]):
+            b = impl_ser(S.build(node.ch[0]), inner, e)
+            if not isinstance(b, str) and any(t in b for t in node.a[0][1]):
+                raise OutOfDomain()        # the inner encoding contains a terminator byte
+        return inner
+    if k in ("coord", "adapter"):
+        return v
+    if k == "dataclass":
+        import dataclasses
+        d = v if isinstance(v, dict) else {f.name: getattr(v, f.name) for f in dataclasses.fields(v)}
+        d = {kk: fix_tags(c, e, d[kk]) for kk, c in zip(S.tkeys(node), node.ch)}
+        return d if isinstance(v, dict) else type(v)(**d)
     if k == "lenswitch":
         tag, inner = v
         idx = list(node.a[0]).index(tag)
@@ -261,7 +275,7 @@ def fix_tags(node, e, v):
         return {kk: fix_tags(by[kk], e, x) for kk, x in v.items()}
     if k == "coll":
         return [fix_tags(node.ch[0], e, x) for x in v]
-    if k in ("opt", "typed", "ifpresent"):
+    if k in ("opt", "typed", "ifpresent", "optflagged"):
         return fix_tags(node.ch[0], e, v)
     if k == "enumswitch":
         tag, inner = v
@@ -363,7 +377,7 @@ def correspond(ctx):
         if viol:
             res.impl_violations.append(viol)
         node = S.node_of_sx(S.parse_sx(c["spec"]))
-        b = impl_ser(S.build(node), S.from_sx(node, S.parse_sx(c["value"])), c["e"])
+        b = impl_ser(S.build(node), S.from_sx(node, S.parse_sx(c["value"]), bool(c["pod"])), c["e"])
         lines.append(f"ser {c['e']} {c['spec']} {c['value']}")
         expect.append(("ser", "ERR" if isinstance(b, str) else "OK " + S.hb(b), c))
 
@@ -394,7 +408,7 @@ def correspond(ctx):
             try:
                 v = fix_tags(node, e, v)
             except OutOfDomain:
-                bump("value-out-of-domain(lenswitch default size collides)")
+                bump("value-out-of-domain(lenswitch size collides / terminator inside typed-terminated)")
                 continue
             except Exception:
                 pass
@@ -413,7 +427,7 @@ def correspond(ctx):
                 lines.append(f"ser {e} {sx} {vsx}")
                 expect.append(("ser", "ERR" if isinstance(b, str) else "OK " + S.hb(b), info))
                 if iswf and dompred:
-                    lines.append(f"dom {int(pod)} {sx} {vsx}")
+                    lines.append(f"dom {e} {int(pod)} {sx} {vsx}")
                     expect.append(("dom", "0" if bad else "1", info))
                 if composite:
                     nontriv.add(("ser", sx, e, pod, vsx))
@@ -482,6 +496,7 @@ def correspond(ctx):
     res.evaluations = len(lines) + oracle_runs
     res.distinct_nontrivial = len(nontriv)
     dist["oracle-runs"] = oracle_runs
+    dist["opaque:samples-outside-lossless-hypothesis(not used)"] = G.HYPOTHESIS_FAILS[0]
     dist["spec-trees"] = n_specs
     res.distribution = dict(sorted(dist.items()))
     res.exhaustive = False
@@ -500,7 +515,7 @@ def _case_violation(case):
     pod = bool(case["pod"])
     if not str(case["value"]).startswith("("):
         return None
-    v = S.from_sx(node, S.parse_sx(case["value"]))
+    v = S.from_sx(node, S.parse_sx(case["value"]), pod)
     trail = b"" if case.get("trail", "-") == "-" else bytes.fromhex(case["trail"])
     bad = case.get("class") == "limit-not-rejected" or bool(case.get("bad"))
     return check_property(node, case["e"], pod, v, trail, bad=bad)
